@@ -7,6 +7,7 @@ package mapsim
 import (
 	"encoding/json"
 	"fmt"
+	"runtime/debug"
 	"strings"
 
 	gsm "github.com/go-sourcemap/sourcemap"
@@ -18,6 +19,7 @@ import (
 	"github.com/xjslang/xjs/token"
 
 	"verifsim/kernel"
+	"verifsim/xutil"
 )
 
 // ---- independent decoder, written from the Source Map v3 text ---------------
@@ -275,7 +277,15 @@ func (e *Engine) compilerClient(ch *kernel.Chooser, st *kernel.Stats) (res kerne
 	return res
 }
 
-func (e *Engine) Run(prop string, ch *kernel.Chooser, st *kernel.Stats) kernel.RunResult {
+func (e *Engine) Run(prop string, ch *kernel.Chooser, st *kernel.Stats) (rr kernel.RunResult) {
+	defer func() {
+		// the mapper (or the code writer / compiler driving it) panicked: no map was produced for this history
+		if r := recover(); r != nil {
+			rr.Violations = append(rr.Violations, kernel.Violation{Property: "C09", Kind: "panic", Signature: "panic|" + xutil.TopFrames(string(debug.Stack()), 2),
+				Detail: fmt.Sprintf("panic while driving the mapper: %v\n%s", r, xutil.TopFrames(string(debug.Stack()), 6))})
+			rr.Evals = 1
+		}
+	}()
 	if ch.Bool(1, 16) {
 		return e.compilerClient(ch, st)
 	}
@@ -635,6 +645,12 @@ func Sweep(ctx *kernel.BatchContext) []kernel.Violation {
 	const block = 4096
 	count := int64(0)
 	checkBlock := func(vals []int) {
+		defer func() {
+			// a panic of the mapper is the mapper's failure to produce a map for these values, not harness trouble
+			if r := recover(); r != nil && len(vals) > 0 {
+				bad(vals[0], fmt.Sprintf("the mapper panicked on the block starting here: %v", r))
+			}
+		}()
 		m := sourcemap.New()
 		// absolute columns: 0, v1, 0, v2, 0 ... => deltas +v1, -v1, +v2, -v2 ...; each on its own generated column
 		m.AddMapping(0, 0)
